@@ -59,9 +59,9 @@ namespace vf {
             { "C08", 0 },                                                // the tree utility on its own: no Lexicon is involved
             { "C09", CONSTRUCTION },                                     // the type of every node
             { "C10", WORDS | SPEC },                                     // specifier and qualifier sets
-            { "C11", WORDS | SPEC | TYPES },                             // qualified types
+            { "C11", WORDS | TYPES },                                    // qualified types (qualifier sets through the named accessors)
             { "C12", WORDS | TYPES | DECLS | MODULE },                   // regions
-            { "C13", WORDS | CONSTS | LINK | SPEC | TYPES | NAMES },     // Lexicon constants and the routes to them
+            { "C13", WORDS | CONSTS | LINK | TYPES | NAMES },            // Lexicon constants and the routes from a spelling to them
             { "C14", CONSTRUCTION },                                     // accessors of everything
             { "C15", CONSTRUCTION },                                     // derived operations
             { "C16", WORDS | TYPES | DECLS | SUBST },                    // substitutions over parameters
